@@ -10,6 +10,10 @@ HARNESS = os.path.join(VERIF, "harness")
 REPLAYS = os.path.join(VERIF, "replays")
 EVIDENCE = os.path.join(VERIF, "evidence")
 KNOWN = os.path.join(VERIF, "KNOWN_FINDINGS.txt")
+if os.path.realpath(REPO) != "/repo":
+    # a run against a scratch copy (seeded-change experiments): never touch the registered evidence
+    REPLAYS = os.path.join(BUILD, "scratch", os.path.basename(REPO), "replays")
+    EVIDENCE = os.path.join(BUILD, "scratch", os.path.basename(REPO), "evidence")
 NCPU = os.cpu_count() or 4
 
 
@@ -46,8 +50,9 @@ def build_driver(variant="asan"):
     os.makedirs(d, exist_ok=True)
     # drop stale builds of the same variant
     for old in os.listdir(BUILD):
-        if old.startswith("drv-%s-" % variant) and old != os.path.basename(d):
-            shutil.rmtree(os.path.join(BUILD, old), ignore_errors=True)
+        op = os.path.join(BUILD, old)
+        if old.startswith("drv-%s-" % variant) and old != os.path.basename(d) and time.time() - os.path.getmtime(op) > 3600:
+            shutil.rmtree(op, ignore_errors=True)
     if variant == "asan":
         cc = ["clang", "-g", "-O1", "-fsanitize=address,undefined", "-fno-sanitize-recover=undefined",
               "-fno-omit-frame-pointer"]
